@@ -233,7 +233,7 @@ impl Prop for C04 {
     fn plan(&self, tier: Tier) -> Plan {
         let mut p = Plan::new(match tier {
             Tier::Quick => 2500,
-            Tier::Thorough => 12_000,
+            Tier::Thorough => 40_000,
         });
         p.workers = 12;
         p
